@@ -12,6 +12,7 @@ package main
 
 import (
 	"bytes"
+	"encoding/binary"
 	"fmt"
 	"sort"
 	"strconv"
@@ -118,8 +119,8 @@ func parseSnapFields(t []string) *snapFields {
 
 func genHash(r *Rand) crypto.Hash {
 	var h crypto.Hash
-	switch r.Intn(8) {
-	case 0: // small, many shared prefixes
+	switch r.Intn(12) {
+	case 0: // small, many shared prefixes; the all-zero hash (the minimum) included
 		h[31] = byte(r.Intn(4))
 	case 1:
 		for i := range h {
@@ -129,10 +130,150 @@ func genHash(r *Rand) crypto.Hash {
 	case 2:
 		h[0] = byte(r.Intn(3))
 		h[1] = byte(r.Intn(3))
+	case 3: // the minimum of the hash space
+	case 4: // the maximum
+		for i := range h {
+			h[i] = 0xff
+		}
+	case 5: // neighbours of the extremes
+		if r.Bool() {
+			h[31] = 1
+		} else {
+			for i := range h {
+				h[i] = 0xff
+			}
+			h[31] = 0xfe
+		}
 	default:
 		copy(h[:], r.Bytes(32))
 	}
 	return h
+}
+
+// boundaryHashes is the palette for aimed transaction lists: extremes, their neighbours,
+// values differing only in the first / last octet.
+func boundaryHashes(r *Rand) []crypto.Hash {
+	var zero, one, top, ff, fe, mid crypto.Hash
+	one[31] = 1
+	top[0] = 1
+	for i := range ff {
+		ff[i], fe[i] = 0xff, 0xff
+	}
+	fe[31] = 0xfe
+	copy(mid[:], r.Bytes(32))
+	return []crypto.Hash{zero, one, top, mid, fe, ff}
+}
+
+// rawSnapBytes writes the snapshot layout by hand, without sorting or any check, so that
+// transaction lists the real encoder refuses (duplicates, descending pairs) can be fed to the
+// decoder. withTopo=false gives the suffix-less form.
+func rawSnapBytes(f *snapFields, txs []crypto.Hash, withTopo bool, topo uint64) []byte {
+	b := []byte{0x77, 0x77, 0, f.version}
+	b = append(b, f.node[:]...)
+	b = binary.BigEndian.AppendUint64(b, f.round)
+	if f.refs == nil {
+		b = append(b, 0, 0)
+	} else {
+		b = append(b, 0, 2)
+		b = append(b, f.refs.Self[:]...)
+		b = append(b, f.refs.External[:]...)
+	}
+	b = append(b, byte(len(txs)>>8), byte(len(txs)))
+	for _, t := range txs {
+		b = append(b, t[:]...)
+	}
+	b = binary.BigEndian.AppendUint64(b, f.ts)
+	if f.sig == nil {
+		b = append(b, make([]byte, 8)...)
+	} else {
+		b = binary.BigEndian.AppendUint64(b, f.sig.Mask)
+		b = append(b, f.sig.Signature[:]...)
+	}
+	if withTopo {
+		b = binary.BigEndian.AppendUint64(b, topo)
+	}
+	return b
+}
+
+// genBoundaryTxLists: transaction lists over the boundary palette with one defect (or none) at a
+// chosen position — equal neighbours, a run of equal values from the start, a descending pair —
+// at every position including the first pair; all other fields at extreme values now and then.
+func genBoundaryTxLists(r *Rand, tier string) []string {
+	pal := boundaryHashes(r)
+	f := &snapFields{version: common.SnapshotVersionCommonEncoding, node: genHash(r), ts: genU64(r)}
+	f.round = genU64(r)
+	if f.round == 0 {
+		f.round = 1
+	}
+	f.refs = &common.RoundLink{Self: genHash(r), External: genHash(r)}
+	if r.Chance(1, 3) {
+		m := genU64(r)
+		if m == 0 {
+			m = 1
+		}
+		f.sig = &crypto.CosiSignature{Mask: m}
+		copy(f.sig.Signature[:], r.Bytes(64))
+	}
+	n := r.Range(2, 6)
+	if r.Chance(1, 8) {
+		n = Pick(r, []int{2, 3, 254, 255})
+	}
+	// ascending base, drawn from the palette first (so that the minimum is usually the head)
+	seen := map[crypto.Hash]bool{}
+	var base []crypto.Hash
+	for _, h := range pal {
+		if len(base) < n && r.Chance(3, 4) && !seen[h] {
+			seen[h] = true
+			base = append(base, h)
+		}
+	}
+	for len(base) < n {
+		h := genHash(r)
+		if !seen[h] {
+			seen[h] = true
+			base = append(base, h)
+		}
+	}
+	base = sortedTxs(base)
+	topo := genU64(r)
+	var ls []string
+	emit := func(txs []crypto.Hash) {
+		if r.Bool() {
+			ls = append(ls, "dec "+Hex(rawSnapBytes(f, txs, true, topo)))
+		} else {
+			ls = append(ls, "dec "+Hex(rawSnapBytes(f, txs, false, 0)))
+		}
+	}
+	emit(base) // valid
+	positions := []int{0}
+	if n > 2 {
+		positions = append(positions, n-2, r.Intn(n-1))
+	}
+	for _, p := range positions {
+		dup := append([]crypto.Hash{}, base...)
+		dup[p+1] = dup[p] // equal neighbours at p
+		emit(dup)
+		desc := append([]crypto.Hash{}, base...)
+		desc[p], desc[p+1] = desc[p+1], desc[p] // descending pair at p
+		emit(desc)
+	}
+	// a run of k+1 equal values from the start, then ascending
+	k := r.Range(1, n-1)
+	run := append([]crypto.Hash{}, base...)
+	for i := 1; i <= k; i++ {
+		run[i] = run[0]
+	}
+	emit(run)
+	// every palette value doubled at the head: v,v,rest
+	v := Pick(r, pal)
+	head := []crypto.Hash{v, v}
+	for _, h := range base {
+		if bytes.Compare(h[:], v[:]) > 0 {
+			head = append(head, h)
+		}
+	}
+	emit(head)
+	return ls
 }
 
 func genU64(r *Rand) uint64 {
@@ -287,7 +428,9 @@ func genSnapCase(r *Rand, i int, tier string) []string {
 	}
 	body := enc[:len(enc)-8]
 	dec := func(b []byte) string { return "dec " + Hex(b) }
-	switch k := r.Intn(20); {
+	switch k := r.Intn(24); {
+	case k >= 20 && k < 23:
+		return genBoundaryTxLists(r, tier)
 	case k < 4: // round trip, both forms, payload
 		return []string{"enc " + f.line() + " " + fmt.Sprint(topo), "pay " + f.line(), dec(enc), dec(body)}
 	case k < 7: // every cut of 1..16 octets and extensions of 1..16 octets at the end
@@ -475,7 +618,9 @@ func genSnapCase(r *Rand, i int, tier string) []string {
 			}
 		default: // identical
 		}
-		return []string{"heq " + f.line() + " " + g.line()}
+		// the same pair asked three ways: two fresh objects; one object mutated in place after its
+		// Hash field was filled (both directions)
+		return []string{"heq " + f.line() + " " + g.line(), "hmut " + f.line() + " " + g.line(), "hmut " + g.line() + " " + f.line()}
 	}
 }
 
@@ -507,6 +652,106 @@ func sameHashedFields(a, b *snapFields) bool {
 		}
 	}
 	return true
+}
+
+// freshHash: PayloadHash of a newly built snapshot holding only the six hashed fields of s
+func freshHash(s *common.Snapshot) crypto.Hash {
+	f := &common.Snapshot{Version: s.Version, NodeId: s.NodeId, RoundNumber: s.RoundNumber, Timestamp: s.Timestamp}
+	if s.References != nil {
+		f.References = &common.RoundLink{Self: s.References.Self, External: s.References.External}
+	}
+	f.Transactions = append([]crypto.Hash{}, s.Transactions...)
+	return f.PayloadHash()
+}
+
+// assignFields overwrites, in place, every hashed field of the object s with the values of f
+// (the Hash field and the signature are left as they are)
+func assignFields(s *common.Snapshot, f *snapFields) {
+	s.Version, s.NodeId, s.RoundNumber, s.Timestamp = f.version, f.node, f.round, f.ts
+	s.References = nil
+	if f.refs != nil {
+		s.References = &common.RoundLink{Self: f.refs.Self, External: f.refs.External}
+	}
+	s.Transactions = append([]crypto.Hash{}, f.txs...)
+}
+
+// hashObjectStateChecks: the hash of a snapshot *object* must not depend on the object's history —
+// Hash field filled (the kernel's `s.Hash = s.PayloadHash()`), garbage in the Hash field, a struct
+// copy carrying the old Hash, each hashed field then changed in turn. Returns a finding or "".
+func hashObjectStateChecks(s *common.Snapshot, seed uint64) (string, string) {
+	r := NewRand(seed)
+	h0 := s.PayloadHash()
+	if h0 != freshHash(s) {
+		return "C07:hash-depends-on-object-state", "PayloadHash of the object differs from the hash of a fresh snapshot with the same fields"
+	}
+	s.Hash = h0
+	cp := *s // struct copy carrying Hash, as `copy := *s` in callers
+	cp.Transactions = append([]crypto.Hash{}, s.Transactions...)
+	step := func(o *common.Snapshot, what string, prev crypto.Hash) (crypto.Hash, string) {
+		h := o.PayloadHash()
+		if h != freshHash(o) {
+			return h, "after Hash was assigned, changing " + what + " gives a hash that is not the hash of the payload"
+		}
+		if h == prev {
+			return h, "after Hash was assigned, changing " + what + " did not change the hash"
+		}
+		return h, ""
+	}
+	for _, o := range []*common.Snapshot{s, &cp} {
+		prev := h0
+		var d string
+		o.Timestamp ^= 1 << uint(r.Intn(64))
+		if prev, d = step(o, "the timestamp", prev); d != "" {
+			return "C07:hash-stale-after-mutation", d
+		}
+		o.NodeId[r.Intn(32)] ^= 1 << uint(r.Intn(8))
+		if prev, d = step(o, "the node id", prev); d != "" {
+			return "C07:hash-stale-after-mutation", d
+		}
+		if o.RoundNumber != 0 {
+			o.RoundNumber ^= 1 << uint(1+r.Intn(63))
+			if o.RoundNumber == 0 {
+				o.RoundNumber = 3
+			}
+			if prev, d = step(o, "the round number", prev); d != "" {
+				return "C07:hash-stale-after-mutation", d
+			}
+		}
+		if o.References != nil {
+			rl := *o.References
+			rl.External[r.Intn(32)] ^= 1
+			o.References = &rl
+		} else {
+			o.References = &common.RoundLink{}
+		}
+		if prev, d = step(o, "the references", prev); d != "" {
+			return "C07:hash-stale-after-mutation", d
+		}
+		if o.RoundNumber != 0 && len(o.Transactions) < 255 {
+			var nt crypto.Hash
+			copy(nt[:], r.Bytes(32))
+			o.AddTransaction(nt)
+			if prev, d = step(o, "the transactions", prev); d != "" {
+				return "C07:hash-stale-after-mutation", d
+			}
+		}
+		// non-hashed fields never matter
+		o.Signature = &crypto.CosiSignature{Mask: 1 + r.U64()>>1}
+		o.Hash = crypto.Hash{}
+		copy(o.Hash[:], r.Bytes(32))
+		if o.PayloadHash() != prev {
+			return "C07:hash-depends-on-object-state", "hash moved with the signature / Hash field"
+		}
+	}
+	return "", ""
+}
+
+func lineSeed(line string) uint64 {
+	var x uint64 = 1469598103934665603
+	for i := 0; i < len(line); i++ {
+		x = (x ^ uint64(line[i])) * 1099511628211
+	}
+	return x
 }
 
 func execSnapCodec(_ *State, line string) Result {
@@ -570,13 +815,31 @@ func execSnapCodec(_ *State, line string) Result {
 			if bad && res.PropKey == "" {
 				res.PropKey, res.PropDesc = "C07:structure", "accepted snapshot violates the structural rules: "+snapLine(s.Snapshot)
 			}
-			if s.RoundNumber == 0 {
+			dump := fmt.Sprintf("ok %s %d %s", snapLine(s.Snapshot), s.TopologicalOrder, cls)
+			wasRound0, wasNoSig := s.RoundNumber == 0, s.Signature == nil
+			if res.PropKey == "" {
+				// the decoded object: its hash is the hash of its payload, also once Hash is filled in
+				// and fields change (the object is consumed by this)
+				func() {
+					defer func() {
+						if e := recover(); e != nil && res.PropKey == "" {
+							res.PropKey, res.PropDesc = "C07:hash-depends-on-object-state", fmt.Sprint("hashing a decoded snapshot panicked: ", e)
+						}
+					}()
+					if crypto.Blake3Hash(s.VerifVersionedPayload()) != s.PayloadHash() {
+						res.PropKey, res.PropDesc = "C07:hash-not-payload", "PayloadHash of a decoded snapshot differs from blake3(versionedPayload)"
+						return
+					}
+					res.PropKey, res.PropDesc = hashObjectStateChecks(s.Snapshot, lineSeed(line))
+				}()
+			}
+			if wasRound0 {
 				res.Tags = append(res.Tags, "dec:round0")
 			}
-			if s.Signature == nil {
+			if wasNoSig {
 				res.Tags = append(res.Tags, "dec:nosig")
 			}
-			return fmt.Sprintf("ok %s %d %s", snapLine(s.Snapshot), s.TopologicalOrder, cls)
+			return dump
 		case "enc":
 			f := parseSnapFields(t[1:8])
 			topo, _ := strconv.ParseUint(t[8], 10, 64)
@@ -602,8 +865,42 @@ func execSnapCodec(_ *State, line string) Result {
 			if g.PayloadHash() != h {
 				res.PropKey, res.PropDesc = "C07:hash-depends-on-signature", "PayloadHash changed with the signature"
 			}
+			// neither does whatever sits in the Hash field, nor the object's history
+			g2 := f.build()
+			copy(g2.Hash[:], []byte("not the hash of this snapshot...."))
+			if g2.PayloadHash() != h {
+				res.PropKey, res.PropDesc = "C07:hash-depends-on-object-state", "PayloadHash changed with the content of the Hash field"
+			}
+			if res.PropKey == "" {
+				res.PropKey, res.PropDesc = hashObjectStateChecks(f.build(), lineSeed(line))
+			}
 			res.Nontrivial = true
 			return "ok " + Hex(p)
+		case "hmut":
+			// one object: hash, store it in the Hash field (kernel idiom), overwrite the fields in
+			// place with those of the second snapshot, hash again
+			a, b := parseSnapFields(t[1:8]), parseSnapFields(t[8:15])
+			s := a.build()
+			h1 := s.PayloadHash()
+			s.Hash = h1
+			cp := *s
+			assignFields(s, b)
+			h2 := s.PayloadHash()
+			hb := b.build().PayloadHash()
+			res.Nontrivial = true
+			if h2 != hb {
+				res.PropKey, res.PropDesc = "C07:hash-stale-after-mutation", "after Hash was assigned and the fields were overwritten in place, PayloadHash is not the hash of a fresh snapshot with the same fields"
+			}
+			assignFields(&cp, b)
+			if cp.PayloadHash() != hb && res.PropKey == "" {
+				res.PropKey, res.PropDesc = "C07:hash-stale-after-mutation", "a struct copy carrying the old Hash does not hash like a fresh snapshot with the same fields"
+			}
+			if h1 == h2 {
+				res.Tags = append(res.Tags, "hmut:eq")
+				return "eq"
+			}
+			res.Tags = append(res.Tags, "hmut:ne")
+			return "ne"
 		case "heq":
 			a, b := parseSnapFields(t[1:8]), parseSnapFields(t[8:15])
 			ha, hb := a.build().PayloadHash(), b.build().PayloadHash()
@@ -650,12 +947,30 @@ func init() {
 	}
 	c = append(c, "dec "+Hex(append(append([]byte{}, full...), 0)))
 	corpus = append(corpus, c)
+	{ // boundary transaction lists: the all-zero hash repeated at the head, 0xff.. repeated, descending to zero
+		var zero, one, ff crypto.Hash
+		one[31] = 1
+		for i := range ff {
+			ff[i] = 0xff
+		}
+		f := &snapFields{version: 2, round: 1, refs: &common.RoundLink{}, ts: 9}
+		var bl []string
+		for _, txs := range [][]crypto.Hash{{zero, one}, {zero, zero}, {zero, zero, one}, {zero, zero, zero, ff}, {one, zero},
+			{ff, ff}, {one, ff, ff}, {zero, one, one}, {zero, ff, one}} {
+			bl = append(bl, "dec "+Hex(rawSnapBytes(f, txs, true, 3)), "dec "+Hex(rawSnapBytes(f, txs, false, 0)))
+		}
+		corpus = append(corpus, bl)
+		a := &snapFields{version: 2, round: 1, refs: &common.RoundLink{}, txs: []crypto.Hash{one}, ts: 9}
+		b := &snapFields{version: 2, round: 1, refs: &common.RoundLink{}, txs: []crypto.Hash{one}, ts: 10}
+		corpus = append(corpus, []string{"hmut " + a.line() + " " + b.line(), "hmut " + a.line() + " " + a.line(), "pay " + a.line()})
+	}
 	Register(&Subsystem{
 		Name: "snapcodec",
 		Rule: "snapshots built from random fields (round 0 / later rounds, 1..255 transactions with shared prefixes, " +
 			"boundary 64-bit values, with/without signature) encoded by the real encoder; every cut/extension of 1..16 " +
 			"octets, all truncations, aimed mutations of each field, arbitrary bytes, encoder panic conditions, hash " +
-			"sensitivity pairs; non-trivial = decoder accepted or encoder produced bytes; distinct = distinct op line",
+			"sensitivity pairs (fresh objects, and one object mutated in place after its Hash field was filled); transaction " +
+			"lists over boundary hashes (all-zero, all-0xff, neighbours) with equal / descending pairs at every position; non-trivial = decoder accepted or encoder produced bytes; distinct = distinct op line",
 		Corpus: corpus,
 		Gen:    genSnapCase,
 		Exec:   execSnapCodec,
